@@ -6,3 +6,5 @@ pub mod c20;
 pub mod mrec;
 pub mod c03;
 pub mod rules;
+pub mod cli;
+pub mod c01;
